@@ -12,8 +12,9 @@ ASSUME = [
     "rejection leaves the store unchanged) and provides config/defaults; it does not echo our own SETCONF as a CONF_CHANGED event",
     "values are abstract tokens mapped per trace to concrete options of each declared type (String, Boolean, Float, Integer, "
     "Boolean+Auto, LineList x2, a *Port list); the harness checks the Python type of what reads return",
-    "an in-place list edit is not combined with a pending assignment of the same option (reads return the saved list by design), "
-    "CONF_CHANGED events concern options without local pending changes, and save() is not re-entered while a save awaits its reply",
+    "CONF_CHANGED events do not arrive while a save awaits its reply, and save() is not re-entered while a save awaits its reply; "
+    "in-place edits of an option whose pending value is another object (an assignment, or an edit overtaken by a change event) "
+    "and change events for options with pending local changes are part of the exploration",
     "the order of different options inside one SETCONF is not compared, the order of one option's values is",
     "comma-list options (RouterList etc.) are outside the exploration: Tor stores them as one comma-joined value, not as repeated lines",
 ]
@@ -78,8 +79,6 @@ def rand_script(rng, n, events):
                 after.add(o)
         elif r < 0.70:
             o = rng.choice(["l1", "l2"])
-            if o in pend and not shared.get(o):
-                continue
             cands = edits_of(view[o], elems, 4, rng)
             if not cands:
                 continue
@@ -103,8 +102,7 @@ def rand_script(rng, n, events):
                         view[o] = list(pval[o])
         elif events and not busy:
             o = rng.choice(["s1", "s2", "l1", "l2"])
-            if o in pend or o in dirty:
-                continue
+            shared[o] = False
             if o.startswith("s"):
                 v = rng.choice([[], ["a"], ["b"]])
             else:
